@@ -558,6 +558,21 @@ func digest(n *node) string {
 	if err != nil {
 		return "Derr=" + errCode(err)
 	}
+	// balance view (Visor.GetBalanceOfAddresses, the query behind /api/v1/balance): confirmed and predicted
+	// coins and hours of every key address
+	qa := make([]cipher.Address, len(keys))
+	for i := range keys {
+		qa[i] = keys[i].addr
+	}
+	bal := "err"
+	if bps, err := n.v.GetBalanceOfAddresses(qa); err == nil && len(bps) == len(qa) {
+		bs := make([]string, len(bps))
+		for i, bp := range bps {
+			bs[i] = fmt.Sprintf("a%d:%d/%d/%d/%d", i, bp.Confirmed.Coins, bp.Confirmed.Hours, bp.Predicted.Coins, bp.Predicted.Hours)
+		}
+		bal = strings.Join(bs, ",")
+	}
+	parts = append(parts, "bal="+bal)
 	return "D" + strings.Join(parts, ";")
 }
 
